@@ -156,7 +156,16 @@ func ruleTRecover(w *World, r *Report) {
 		}
 	}
 	api := append(append([]*ssa.Function{}, pair...), must...)
-	for _, a := range api {
+	// the recoverers the API reaches, directly or through helpers that are themselves outside any recover
+	var froms []*ssa.Function
+	for f := range w.pkgReach(api, stop) {
+		froms = append(froms, f)
+	}
+	sort.Slice(froms, func(i, j int) bool { return fnName(froms[i]) < fnName(froms[j]) })
+	for _, a := range froms {
+		if stop[a] {
+			continue
+		}
 		for _, c := range w.pkgCallees(a) {
 			if stop[c] {
 				found := false
@@ -227,7 +236,19 @@ func riskyInstr(fn *ssa.Function) ssa.Instruction {
 	for _, b := range fn.Blocks {
 		for _, in := range b.Instrs {
 			switch x := in.(type) {
-			case *ssa.IndexAddr, *ssa.Index, *ssa.Slice:
+			case *ssa.IndexAddr:
+				if fixedArraySafe(x.X, x.Index) {
+					continue // a constant index into a local fixed-size array (the argument list of a variadic call)
+				}
+				return in
+			case *ssa.Slice:
+				if a, ok := x.X.(*ssa.Alloc); ok && x.Low == nil && x.High == nil {
+					if _, isArr := a.Type().(*types.Pointer).Elem().Underlying().(*types.Array); isArr {
+						continue // whole-array slice of a local array
+					}
+				}
+				return in
+			case *ssa.Index:
 				return in
 			case *ssa.TypeAssert:
 				if !x.CommaOk {
@@ -341,9 +362,26 @@ func (w *World) checkRecoverer(r *Report, b *ssa.Function) {
 		return
 	}
 	// every path from nonNil to a return must store a non-nil value to errCell
+	// the deferred function reaches the named error either as a captured
+	// variable (closure) or through a pointer argument (defer f(&err))
+	var errParams []ssa.Value
+	for i, a := range def.Call.Args {
+		if al, ok := a.(*ssa.Alloc); ok && al == errCell && i < len(cf.Params) {
+			errParams = append(errParams, cf.Params[i])
+		}
+	}
 	isGoodStore := func(in ssa.Instruction) bool {
 		st, ok := in.(*ssa.Store)
-		if !ok || cellOf(st.Addr) != errCell {
+		if !ok {
+			return false
+		}
+		viaParam := false
+		for _, p := range errParams {
+			if st.Addr == p {
+				viaParam = true
+			}
+		}
+		if !viaParam && cellOf(st.Addr) != errCell {
 			return false
 		}
 		return w.nonNilByConstruction(st.Val, st.Block())
@@ -535,7 +573,15 @@ func ruleTShape(w *World, r *Report) {
 	r.rule("T-SHAPE", "Compile/CompileWithNS: every return is (nil, e) with e non-nil by construction, or (&Expr{q: qy}, nil) on a path where the builder's error is nil and qy != nil; MustCompile: no panic, every return value is a non-nil *Expr whose query field is set")
 	pair, must := w.compileAPI()
 	en, qidx, _ := w.exprStruct()
-	for _, fn := range pair {
+	work := append([]*ssa.Function{}, pair...)
+	seenPair := map[*ssa.Function]bool{}
+	for len(work) > 0 {
+		fn := work[0]
+		work = work[1:]
+		if seenPair[fn] {
+			continue
+		}
+		seenPair[fn] = true
 		r.FuncsAnalysed[fnName(fn)] = true
 		if p := hasPanic(fn); p != nil {
 			r.bad("T-SHAPE", fnName(fn)+":nopanic", w.instrPos(p), "compile entry point panics")
@@ -549,6 +595,18 @@ func ruleTShape(w *World, r *Report) {
 			nret++
 			key := fmt.Sprintf("%s:return", fnName(fn))
 			r0, r1 := strip(retVal(ret, 0)), strip(retVal(ret, 1))
+			// both results handed through from one call of a package function of the same shape
+			if e0, ok := r0.(*ssa.Extract); ok && e0.Index == 0 {
+				if e1, ok := r1.(*ssa.Extract); ok && e1.Index == 1 && e1.Tuple == e0.Tuple {
+					if c, ok := e0.Tuple.(*ssa.Call); ok {
+						if h := c.Call.StaticCallee(); h != nil && w.inPkg(h) && types.Identical(h.Signature.Results(), fn.Signature.Results()) {
+							r.ok("T-SHAPE", key, w.instrPos(ret), "hands through both results of "+h.Name()+", whose returns are judged by the same rule")
+							work = append(work, h)
+							continue
+						}
+					}
+				}
+			}
 			switch {
 			case isNilConst(r0) && !isNilConst(r1):
 				if w.nonNilByConstruction(r1, b) {
@@ -1749,4 +1807,18 @@ func (w *World) overDecrement(fn *ssa.Function, field string) ssa.Instruction {
 		dfs(fn.Blocks[0], 0)
 	}
 	return found
+}
+
+// fixedArraySafe: base is a local array of known length and idx a constant inside it.
+func fixedArraySafe(base, idx ssa.Value) bool {
+	a, ok := base.(*ssa.Alloc)
+	if !ok {
+		return false
+	}
+	arr, ok := a.Type().(*types.Pointer).Elem().Underlying().(*types.Array)
+	if !ok {
+		return false
+	}
+	k, ok := constInt(idx)
+	return ok && k >= 0 && k < arr.Len()
 }
